@@ -15,6 +15,7 @@ SPECIFICATION Spec
 INVARIANT TypeOK
 INVARIANT StackEmptyBetweenCalls
 INVARIANT FailIsIdempotent
+INVARIANT FailLeavesNoResidue
 INVARIANT LoadOnce
 INVARIANT ModuleScopeIsBase
 INVARIANT SingleInstance
